@@ -35,6 +35,12 @@ pub fn roundtrip(acc: &mut Acc, e: &Envelope, model_bytes: Option<Vec<u8>>, clas
             if e2.to_cbor_data() != b { acc.viol(format!("C05|{}|{class}|reencode", o.case_name()), "re-encoding differs", cid(), json!({"bytes": hex::encode(&b), "reencoded": hex::encode(e2.to_cbor_data())})) }
         }
     }
+    // the value-level entry point
+    match catch(|| Envelope::try_from_cbor(e.tagged_cbor())) {
+        Ok(Ok(e4)) => if bind::observe(&e4) != o { acc.viol(format!("C05|{}|{class}|try_from_cbor-differs", o.case_name()), "try_from_cbor(tagged_cbor()) differs", cid(), json!({"bytes": hex::encode(&b)})) },
+        Ok(Err(er)) => acc.viol(format!("C05|{}|{class}|try_from_cbor-error", o.case_name()), format!("{er}"), cid(), json!({"bytes": hex::encode(&b)})),
+        Err(p) => acc.viol(format!("C05|{}|{class}|try_from_cbor-panic|{}", o.case_name(), p.site), p.msg.clone(), cid(), json!({})),
+    }
     if with_ur {
         acc.inc("ur_roundtrips");
         match catch(|| { let s = e.ur_string(); Envelope::from_ur_string(&s).map(|x| (s, x)) }) {
